@@ -139,7 +139,9 @@ def gen_cases(tier, seed):
                'direct': rng.random() < 0.5,
                # value-like handlers that are falsy objects
                'falsy_handlers': rng.choice([None, None, None, 'bool',
-                                             'len'])}
+                                             'len']),
+               # keyword arguments carried by every event
+               'payload': rng.choice([None, None, 'event_name', 'name'])}
 
 
 _budget = None
@@ -239,10 +241,22 @@ def run_case(case):
     dispatched_from_callbacks = [0]
     raised_obj = [None]
 
+    # every event of the case carries the same keyword payload; a keyword
+    # may be called like a parameter of the dispatcher's own methods
+    payload = {None: {}, 'event_name': {'event_name': 'kw'},
+               'name': {'name': 1, 'args': (), 'kwargs': None}}[
+                   case.get('payload')]
+    if payload:
+        res.tags['keyword_payload'].add(case['payload'])
+
     def make_handler(idx, names):
         ns = {}
         for name in names:
-            def cb(self, token, _name=name):
+            def cb(self, token, _name=name, **kw):
+                if kw != payload:
+                    res.div(seq[0], 'wrong-arguments', 'keyword arguments of '
+                            'the event differ from the dispatched ones',
+                            payload, kw)
                 seq[0] += 1
                 log.append((seq[0], self.idx, token, assignment[0],
                             d.dispatch_enabled))
@@ -301,7 +315,7 @@ def run_case(case):
             d.create_entity(h)
         else:
             name = 'a' if name == '+' else name
-            d.dispatch(name, new_token(name))
+            d.dispatch(name, new_token(name), **payload)
 
     def new_token(name):
         tok = len(tokens)
@@ -335,7 +349,7 @@ def run_case(case):
             dispatched_from_callbacks[0] += 1
             name = case['events'][-1] if case['events'][-1] not in 'z+' \
                 else 'a'
-            d.dispatch(name, new_token(name))
+            d.dispatch(name, new_token(name), **payload)
         elif kind == 'reenable_nested':
             # disable, dispatch, enable again - all from inside a callback
             # that a release is running: the nested enabling assignment must
@@ -344,7 +358,7 @@ def run_case(case):
             dispatched_from_callbacks[0] += 1
             name = case['events'][-1] if case['events'][-1] not in 'z+' \
                 else 'a'
-            d.dispatch(name, new_token(name))
+            d.dispatch(name, new_token(name), **payload)
             d.dispatch_enabled = True
             got_now = {(e[1], e[2]) for e in log}
             changed_h = {c[1] for c in changes}
@@ -366,7 +380,7 @@ def run_case(case):
             dispatched_from_callbacks[0] += 1
             name = case['events'][0] if case['events'][0] not in 'z+' \
                 else 'a'
-            d.dispatch(name, new_token(name))
+            d.dispatch(name, new_token(name), **payload)
         elif kind == 'addh':
             d.add_handler(spare)
             changes.append((seq[0], spare.idx, 'add', token))
@@ -463,7 +477,7 @@ def run_case(case):
             before = len(log)
             tok = len(tokens)
             name = next((n for n in case['events'] if n not in 'z+'), 'a')
-            d.dispatch(name, new_token(name))
+            d.dispatch(name, new_token(name), **payload)
             res.stats['immediate_dispatch_after_raise'] += 1
             got_now = {e[1] for e in log[before:] if e[2] == tok}
             changed_h = {c[1] for c in changes}
